@@ -15,21 +15,21 @@ READS = [VM + 'read_byte', VM + 'read_short', VM + 'read_constant', VM + 'read_s
 
 def run(rep):
     w = rep.world('dev')
-    b1(rep, w)
-    b2(rep, w)
-    b2w(rep, w)
-    b7(rep, w)
-    b3(rep, w)
-    b8(rep, w)
-    b9(rep, w)
-    b10(rep, w)
+    rep.guard(b1, rep, w)
+    rep.guard(b2, rep, w)
+    rep.guard(b2w, rep, w)
+    rep.guard(b7, rep, w)
+    rep.guard(b3, rep, w)
+    rep.guard(b8, rep, w)
+    rep.guard(b9, rep, w)
+    rep.guard(b10, rep, w)
     import c04_narrow
-    c04_narrow.b4(rep, w)
-    c04_narrow.b4n(rep, w)
-    b5(rep, w)
-    c17.l2(rep, w)
+    rep.guard(c04_narrow.b4, rep, w)
+    rep.guard(c04_narrow.b4n, rep, w)
+    rep.guard(b5, rep, w)
+    rep.guard(c17.l2, rep, w)
     import c08
-    c08.x8(rep, w)   # JumpFinally is emitted only where a handler of the same function is registered at run time
+    rep.guard(c08.x8, rep, w)   # JumpFinally is emitted only where a handler of the same function is registered at run time
 
 
 # ---- VM side: bytes consumed ----------------------------------------------------------------------------------
